@@ -152,6 +152,39 @@ def gen_ext(tier, seed):
     return cases
 
 
+# ---- repeated Process / GetModule on the same Modules, and restrictions of a typedef (enumproc)
+def gen_proc(tier, seed):
+    rnd = random.Random(seed ^ 0x9C0)
+    cases = []
+    N = ("-", "-")
+    names = ["a", "b", "c", "d", "e", "f"]
+    steps = ["P", "PP", "PG", "GG", "GPP", "PPPG"]
+    for bits in (0, 1):
+        mx = 4294967295 if bits else 2147483647
+        lists = []
+        for k in (1, 2):
+            for vs in itertools.product(MODVALS, repeat=k):
+                lists.append([(names[i + 1], vs[i], N) for i in range(k)])          # b, c: a proper subset of the typedef's names
+        lists += [[("b", "1", N), ("c", None, N)], [("c", None, N), ("a", None, N)], [("f", "3", N), ("b", None, N), ("a", "0", N)],
+                  [("a", None, N), ("a", None, N)], [("a", "1", N), ("b", "1", N)], [("a", None, N), ("b", "0", N)],
+                  [("a", str(mx), N), ("b", None, N)], [("a", str(mx + 1), N)], [("a", "-1", N), ("b", None, N)],
+                  [("a", "-2147483649", N)], [("a", "4", N), ("b", None, N), ("a", None, N)], [("b", "7", ("o", "-")), ("c", None, ("-", "d"))],
+                  [("a", None, N), ("b", None, N), ("c", None, N), ("d", None, N), ("e", None, N), ("f", None, N)],
+                  [("zz", None, N), ("b", "9", N)]]
+        for form in "iturR":
+            for ml in lists:
+                mem = mod_case(bits, ml).split()[2]
+                for st in steps:
+                    cases.append("enumproc %d %s %s %s" % (bits, form, st, mem))
+        for _ in range(1000 if tier == "quick" else 30000):
+            k = rnd.randint(2, 5)
+            nm = [rnd.choice(names) if rnd.random() < 0.12 else names[i] for i in range(k)]
+            ml = [(nm[i], rnd.choice(MODVALS + [None, None, "3", "2", str(mx - 1)]), rnd.choice(SUBS)) for i in range(k)]
+            cases.append("enumproc %d %s %s %s" % (bits, rnd.choice("iturR"), "".join(rnd.choice("PG") for _i in range(rnd.randint(1, 4))),
+                                                 mod_case(bits, ml).split()[2]))
+    return cases
+
+
 def gen_api(tier, seed):
     rnd = random.Random(seed ^ 0xC14)
     cases = []
@@ -199,7 +232,7 @@ def run(res, tier, seed, proof):
     acases = gen_api(tier, seed)
     ago, aml, amism, askipped = simple_run(lib, res, acases)
     rejected_then_ok = sum(1 for g in ago if "eo" in g.split()[0])
-    mcases = gen_mod(tier, seed) + gen_ext(tier, seed)
+    mcases = gen_mod(tier, seed) + gen_ext(tier, seed) + gen_proc(tier, seed)
     mgo, mml, mmism, mskipped = simple_run(lib, res, mcases)
     mouts = {}
     for g in mgo:
@@ -226,11 +259,19 @@ def run(res, tier, seed, proof):
                     "at and next to the maximum, with status) resolved in place / through a typedef / through two typedefs, observed "
                     "through either of two leaves, then all sequences of 1-2 calls over 11 operations (SetNext, Set at 0/1/2/5/max/max-1, "
                     "a repeated name, container edits) and selected longer ones (all of length 3 in thorough), random others: verdicts "
-                    "and all views must equal the model's calls continued from the state its member loop left" % (len(VALUES), len(API_ENUM), len(API_BITS), len(SUBS), len(MODVALS)),
+                    "and all views must equal the model's calls continued from the state its member loop left.  Plus (enumproc) member lists - all "
+                    "of length 1-2 over 7 values and 14 special ones (repeated name/value, outside the range, automatic value past the "
+                    "maximum, valid ones) - in place, in a typedef, as a union member, and as the own member list of a type that RESTRICTS "
+                    "a typedef (directly and through a second typedef), each with 6 histories of Process / GetModule calls on the same "
+                    "Modules: every call must report an error iff the model's loop records one, and the table after the last call is the "
+                    "model's for the listed members" % (len(VALUES), len(API_ENUM), len(API_BITS), len(SUBS), len(MODVALS)),
                mismatches=mism + amism + mmism, skipped_unmodelled=skipped + askipped + mskipped,
                distribution=dict(impl_outcomes=outs, api_cases=len(acases), api_sequences_with_an_accepted_call_after_a_rejected_one=rejected_then_ok,
                                  api_cases_editing_a_returned_container=sum(1 for g in ago if "r" in g.split()[0][4:]),
-                                 substatement_cases=len(mcases), extension_cases=sum(1 for c in mcases if c.startswith("enumext")), substatement_impl_outcomes=mouts,
+                                 substatement_cases=len(mcases), extension_cases=sum(1 for c in mcases if c.startswith("enumext")),
+                                 process_history_cases=sum(1 for c in mcases if c.startswith("enumproc")),
+                                 restriction_cases=sum(1 for c in mcases if c.startswith("enumproc") and c.split()[2] in "rR"),
+                                 process_histories_with_error_every_time=sum(1 for g in mgo if g.startswith("steps=ee")), substatement_impl_outcomes=mouts,
                                  substatement_cases_with_an_obsolete_member=sum(1 for c in mcases if c.startswith("enummod") and "o" in "".join(x.split(":", 2)[2] for x in c.split()[2].split(",")))),
                samples=[cases[40], cases[len(cases) // 2], cases[-1], acases[len(acases) // 2], acases[-1], mcases[len(mcases) // 2], mcases[-1]],
                sample_observations=[go[40], go[len(cases) // 2], go[-1], ago[len(acases) // 2], ago[-1], mgo[len(mcases) // 2], mgo[-1]])
